@@ -1,4 +1,7 @@
 import YaqsModel.Lemmas.Lottery
+import YaqsModel.Lemmas.ConsistencyFlow
+import YaqsModel.Lemmas.ConsistencyDegenerate
+import YaqsModel.Lemmas.ConsistencyQuadratic
 
 /-!
 # C01 — open-system trajectories average to the Lindblad master equation  (jump lottery part)
@@ -38,6 +41,11 @@ c01_full (NOT proved — the analytic limit is cited, DESIGN.md §3 "mathematics
   What the theorems below give is the exact algebraic identity these estimates start from; the harness measures
   the rate on the real code (Richardson ratio) on every run.
 ```
+
+Extension (second half of this file, namespace `Yaqs.Consistency`): the two analytic facts named above are now theorems over
+`Matrix n n ℂ` — `norm_deriv` (`1 − ‖ψ̃‖² = t·Σγ_k‖L_kψ‖² + o(t)`), `c01_consistency` (`d/dt E(t)|₀ = 𝓛ρ`, all three solvers'
+no-jump propagators, any process order, zero or non-zero jump rate) and `c01_local_error_quadratic` (one-step error
+`E(t) − exp(t𝓛)ρ = O(t²)`).  What remains cited of `c01_full` is only the accumulation of the local errors along the grid.
 -/
 namespace Yaqs.Lottery
 open Yaqs Yaqs.Dist
@@ -526,3 +534,291 @@ theorem c01_partial (L : Nat) (procs : List Proc) (dt : Rat) (nrm : Proc → Rat
   grind
 
 end Yaqs.Lottery
+
+/-!
+# C01, extension — first-order consistency of the trajectory average with the Lindblad generator, as a theorem
+
+The analytic step that `c01_full` above lists as "cited" — *the derivative at `dt = 0` of the one-step branch average is the
+Lindbladian* — formalised over `Matrix n n ℂ` with Mathlib's matrix exponential (`NormedSpace.exp`) and `HasDerivAt` in
+the real variable `t = dt`.  Definitions are in `Lemmas/Consistency.lean`:
+
+* `unitaryStep H t = exp(t•(−i•H))` — the flow `local_dynamic_tdvp` approximates;
+* `dissStep Ls t = Π_k exp(t•(−(γ_k/2)•L_k†L_k))` — `apply_dissipation`: one factor `expm(-0.5*dt*γ*L†L)` per process; the
+  theorems hold for *every* list, hence for every order in which the code applies the factors, and no commutation is
+  assumed (`dissStepK Ls t = exp(−(t/2)K)`, `K = Σ_k γ_k L_k†L_k`, is the single exponential; it has the same generator);
+* `pureAverage Ls φ = φφ† + ((1−‖φ‖²)/c)·Σ_k γ_k (L_kφ)(L_kφ)†`, `c = Σ_k γ_k‖L_kφ‖²` — the branch average of
+  `stochastic_process` on the post-dissipation vector `φ = ψ̃(t)`.  It *is* the closed form of `c01_lottery_expectation`
+  above: there `W = Σ_k t·γ_k‖L_kφ‖² = t·c` and the jump term carries `t·γ_k`; the factor `t` cancels
+  (`stepAverage_eq`, first conjunct of `c01_average_is_lottery_expectation`) and expectation values are
+  `tr(O·E) = a₀ + ((1−n)/W)·Σ_k t·γ_k·a_k` (second conjunct).  The driver request `avg` evaluates exactly this matrix and is
+  compared with the real code's branch average in the `consistency` cases of `harness/impl/C01.py`;
+* `lind H Ls ρ` — the `lindbladian` of `Lemmas/MasterEq.lean` over ℂ, i.e. (`c01_lind_is_lindblad_rhs`) the right-hand side
+  `lindbladOfProcs (matrixOps i ½ ·)` that `Props/C06.lean::lindblad_rhs_is_lindbladian` ties to `analog/lindblad.py`.
+
+A *no-jump family* (`IsNoJumpFamily H Ls A`) is any propagator curve with `A 0 = 1` and `A'(0) = −iH − ½K`; order 1, the
+single-exponential variant, the Strang step of order 2 and the MCWF propagator `exp(−i t H_eff)` are such families
+(`c01_noJump_families`), so every theorem below applies to all of them.
+
+The size of the one-step error is `O(t²)` (`c01_local_error_quadratic`, Taylor's theorem with remainder on the twice
+continuously differentiable curves involved; `Lemmas/ConsistencyQuadratic.lean`).  What is still *not* a theorem is the
+global statement of `c01_full`: the accumulation of `m` such local errors along the grid to `O(m·dt²) = O(T·dt)` for order
+1 / MCWF and the extra order of the palindromic (Strang) composition for order 2 — the stability (Lady Windermere) argument
+for the *nonlinear* trajectory-average map and the symmetric-method order argument remain cited and measured by the
+Richardson oracles.
+-/
+namespace Yaqs.Consistency
+
+open Matrix NormedSpace Yaqs.MasterEq
+
+variable {n : Type} [Fintype n] [DecidableEq n]
+
+/-- **C01.7a `c01_noJump_families`** (`analog_tjm_1`, `analog_tjm_2`, `mcwf`) The no-jump propagators of the three solvers
+    all pass through `1` at `t = 0` with the same generator `−iH − ½ Σ_k γ_k L_k†L_k`:
+    order 1 `D(t)·U(t)` with the per-process product `D`, the same with `D = exp(−(t/2)K)`, the Strang step
+    `D(t/2)·U(t)·D(t/2)`, and `exp(−i t (H − (i/2)K))`.  No commutation between the factors is assumed. -/
+theorem c01_noJump_families (H : Matrix n n ℂ) (Ls : List (Proc (Matrix n n ℂ))) :
+    IsNoJumpFamily H Ls (fun t => dissStep Ls t * unitaryStep H t)
+    ∧ IsNoJumpFamily H Ls (fun t => dissStepK Ls t * unitaryStep H t)
+    ∧ IsNoJumpFamily H Ls (fun t => dissStep Ls (t / 2) * unitaryStep H t * dissStep Ls (t / 2))
+    ∧ IsNoJumpFamily H Ls (fun t : ℝ => exp (t • ((-Complex.I) • (H - ((1 / 2 : ℂ) * Complex.I) • genK Ls)))) :=
+  ⟨noJump_order1 H Ls, noJump_order1K H Ls, noJump_order2 H Ls, noJump_mcwf H Ls⟩
+
+/-- **C01.7b `nojump_deriv`** (unitary step + dissipation sweep) For Hermitian `H`, every process list and every vector
+    `ψ`: the un-normalised no-jump state `ψ̃(t)ψ̃(t)†`, `ψ̃(t) = A(t)ψ`, has derivative `−i[H,ρ] − ½{K,ρ}` at `t = 0`
+    (`ρ = ψψ†`), for every no-jump family `A` — in particular for `ψ̃(t) = Π_k exp(−(t/2)γ_kL_k†L_k) · exp(−itH) ψ`. -/
+theorem nojump_deriv {H : Matrix n n ℂ} {Ls : List (Proc (Matrix n n ℂ))} {A : ℝ → Matrix n n ℂ}
+    (hA : IsNoJumpFamily H Ls A) (hH : Hᴴ = H) (ψ : n → ℂ) :
+    HasDerivAt (fun t => vecMulVec (A t *ᵥ ψ) (star (A t *ᵥ ψ)))
+      ((-Complex.I) • (H * vecMulVec ψ (star ψ) - vecMulVec ψ (star ψ) * H)
+        - (1 / 2 : ℂ) • (genK Ls * vecMulVec ψ (star ψ) + vecMulVec ψ (star ψ) * genK Ls)) 0 := by
+  have h := hasDerivAt_sigma_noJump hA hH (vecMulVec ψ (star ψ))
+  have e : sigma A (vecMulVec ψ (star ψ)) = fun t => vecMulVec (A t *ᵥ ψ) (star (A t *ᵥ ψ)) := by
+    funext t; exact sigma_pure A ψ t
+  rwa [e] at h
+
+/-- **C01.7c `norm_deriv`** (`calculate_stochastic_factor`) `n(t) = ‖ψ̃(t)‖²` has derivative `−⟨ψ|K|ψ⟩ = −Σ_k γ_k‖L_kψ‖²` at
+    `0` (a real number, `rateSum`), so the jump probability is `1 − n(t) = t·Σ_k γ_k‖L_kψ‖² + o(t)`; second conjunct: the
+    same sum is `⟨ψ|K|ψ⟩` and is the normaliser `c(0)` of the lottery weights. -/
+theorem norm_deriv {H : Matrix n n ℂ} {Ls : List (Proc (Matrix n n ℂ))} {A : ℝ → Matrix n n ℂ}
+    (hA : IsNoJumpFamily H Ls A) (hH : Hᴴ = H) (ψ : n → ℂ) :
+    HasDerivAt (fun t => normSqVec (A t *ᵥ ψ)) (-(rateSum Ls ψ)) 0
+    ∧ star ψ ⬝ᵥ (genK Ls *ᵥ ψ) = (rateSum Ls ψ : ℂ) := by
+  refine ⟨hasDerivAt_normSqVec hA hH ψ, ?_⟩
+  rw [← rate_sum_eq, ← traceK_pure, trace_mul_pure]
+
+/-- **C01.7d `ratio_deriv`** (`stochastic_process`: jump probability over total weight) If `ψ` is a unit vector and
+    `⟨ψ|K|ψ⟩ ≠ 0` then the factor `(1−n(t))/c(t)` in front of the jump branches vanishes at `0` and has derivative `1`
+    there: to first order a jump of process `k` carries weight `t·γ_k‖L_kψ‖²`, with the *same* `γ_k` as in `K`.
+    (For `⟨ψ|K|ψ⟩ = 0` see `c01_consistency_degenerate`.) -/
+theorem ratio_deriv {H : Matrix n n ℂ} {Ls : List (Proc (Matrix n n ℂ))} {A : ℝ → Matrix n n ℂ}
+    (hA : IsNoJumpFamily H Ls A) (hH : Hᴴ = H) (ψ : n → ℂ) (hψ : star ψ ⬝ᵥ ψ = 1)
+    (hκ : star ψ ⬝ᵥ (genK Ls *ᵥ ψ) ≠ 0) :
+    (1 - star (A 0 *ᵥ ψ) ⬝ᵥ (A 0 *ᵥ ψ))
+        / (Ls.map fun p => rateC p.gamma * (star (p.op *ᵥ (A 0 *ᵥ ψ)) ⬝ᵥ (p.op *ᵥ (A 0 *ᵥ ψ)))).sum = 0
+    ∧ HasDerivAt (fun t => (1 - star (A t *ᵥ ψ) ⬝ᵥ (A t *ᵥ ψ))
+        / (Ls.map fun p => rateC p.gamma * (star (p.op *ᵥ (A t *ᵥ ψ)) ⬝ᵥ (p.op *ᵥ (A t *ᵥ ψ)))).sum) 1 0 := by
+  have hρ1 : trace (vecMulVec ψ (star ψ)) = 1 := by rw [trace_pure, hψ]
+  have hκ' : trace (genK Ls * vecMulVec ψ (star ψ)) ≠ 0 := by rwa [trace_mul_pure]
+  obtain ⟨h0, hd⟩ := hasDerivAt_ratio hA hH _ hρ1 hκ'
+  have e : ratio Ls A (vecMulVec ψ (star ψ)) = fun t => (1 - star (A t *ᵥ ψ) ⬝ᵥ (A t *ᵥ ψ))
+      / (Ls.map fun p => rateC p.gamma * (star (p.op *ᵥ (A t *ᵥ ψ)) ⬝ᵥ (p.op *ᵥ (A t *ᵥ ψ)))).sum := by
+    funext t; unfold ratio; rw [nrm_pure, cw_pure]
+  rw [e] at hd
+  have h0' := h0
+  rw [e] at h0'
+  exact ⟨h0', hd⟩
+
+omit [DecidableEq n] in
+/-- **C01.7e `c01_lind_is_lindblad_rhs`** (link to C06) For non-negative strengths the generator `lind H Ls ρ` of the
+    theorems below is the right-hand side `lindbladOfProcs` the exact solver integrates (`Props/C06.lean`,
+    `lindblad_rhs_is_lindbladian`: `-1j*(Hρ-ρH)`, `+= LρL†` per kept operator, `-= 0.5*{ΣL†L, ρ}`), instantiated over ℂ. -/
+theorem c01_lind_is_lindblad_rhs (H : Matrix n n ℂ) (Ls : List (Proc (Matrix n n ℂ))) (ρ : Matrix n n ℂ)
+    (hγ : ∀ p ∈ Ls, 0 ≤ p.gamma) :
+    lind H Ls ρ = lindbladOfProcs (matrixOps Complex.I (1 / 2 : ℂ) rateC) H Ls ρ := by
+  unfold lindbladOfProcs
+  rw [lindbladRhs_matrix]
+  unfold lind lindbladian jumpOps
+  rw [sum_filter_eq_sum_ite]
+  congr 2
+  apply List.map_congr_left
+  intro p hp
+  by_cases h : 0 < p.gamma
+  · simp [h]
+  · have h0 : p.gamma = 0 := le_antisymm (not_lt.mp h) (hγ p hp)
+    simp [h0, rateC]
+
+/-- **C01.7 `c01_consistency`** (one whole step of the tensor-jump method, any integrator order, any process order)
+    For Hermitian `H`, every list of jump operators with strengths `γ_k ≥ 0` (no bound on the list, no commutation, any
+    order), every unit vector `ψ` and every no-jump family `A` (order 1: `A(t) = Π_k exp(−(t/2)γ_kL_k†L_k)·exp(−itH)`):
+    the branch average of one step
+        `E(t) = ψ̃ψ̃† + ((1−‖ψ̃‖²)/c(t))·Σ_k γ_k L_kψ̃ψ̃†L_k†`,  `ψ̃ = A(t)ψ`,  `c(t) = Σ_k γ_k‖L_kψ̃‖²`
+    equals `ρ = ψψ†` at `t = 0` and has derivative
+        `𝓛ρ = −i[H,ρ] + Σ_k γ_k (L_kρL_k† − ½{L_k†L_k, ρ})`
+    there — the Lindbladian whose jump operators are the listed processes and whose rates are their strengths; and this
+    `𝓛ρ` is the right-hand side of the exact solver (third conjunct).  Consequently `E(t) = ρ + t·𝓛ρ + o(t)`. -/
+theorem c01_consistency {H : Matrix n n ℂ} {Ls : List (Proc (Matrix n n ℂ))} {A : ℝ → Matrix n n ℂ}
+    (hA : IsNoJumpFamily H Ls A) (hH : Hᴴ = H) (hγ : ∀ p ∈ Ls, 0 ≤ p.gamma) (ψ : n → ℂ)
+    (hψ : star ψ ⬝ᵥ ψ = 1) :
+    pureAverage Ls (A 0 *ᵥ ψ) = vecMulVec ψ (star ψ)
+    ∧ HasDerivAt (fun t => pureAverage Ls (A t *ᵥ ψ)) (lind H Ls (vecMulVec ψ (star ψ))) 0
+    ∧ lind H Ls (vecMulVec ψ (star ψ))
+        = lindbladOfProcs (matrixOps Complex.I (1 / 2 : ℂ) rateC) H Ls (vecMulVec ψ (star ψ)) := by
+  obtain ⟨h0, hd⟩ := hasDerivAt_pureAverage hA hH hγ ψ hψ
+  exact ⟨h0, hd, c01_lind_is_lindblad_rhs H Ls _ hγ⟩
+
+/-- **C01.7 for the two TJM orders, spelled out**: the derivative at `0` of the one-step average is `𝓛ρ` for
+    `analog_tjm_1` (`U` then `D(t)`) and for the Strang step `D(t/2)·U(t)·D(t/2)` of `analog_tjm_2`. -/
+theorem c01_consistency_tjm (H : Matrix n n ℂ) (Ls : List (Proc (Matrix n n ℂ))) (hH : Hᴴ = H)
+    (hγ : ∀ p ∈ Ls, 0 ≤ p.gamma) (ψ : n → ℂ) (hψ : star ψ ⬝ᵥ ψ = 1) :
+    HasDerivAt (fun t => pureAverage Ls ((dissStep Ls t * unitaryStep H t) *ᵥ ψ))
+      (lind H Ls (vecMulVec ψ (star ψ))) 0
+    ∧ HasDerivAt (fun t => pureAverage Ls ((dissStep Ls (t / 2) * unitaryStep H t * dissStep Ls (t / 2)) *ᵥ ψ))
+      (lind H Ls (vecMulVec ψ (star ψ))) 0 :=
+  ⟨(c01_consistency (noJump_order1 H Ls) hH hγ ψ hψ).2.1, (c01_consistency (noJump_order2 H Ls) hH hγ ψ hψ).2.1⟩
+
+/-- **C01.7f `c01_consistency_mcwf`** (`mcwf`: weights and jump operators from the *pre-step* state) The MCWF branch average
+    `σ(t) + ((1−n(t))/⟨ψ|K|ψ⟩)·Σ_k γ_k L_kρL_k†` has the same derivative `𝓛ρ` at `0`, for every no-jump family (in
+    particular `exp(−i t H_eff)`), every state `ρ` of trace one with `tr(Kρ) ≠ 0` (the code skips the jump when the
+    normaliser is `< 1e-15`). -/
+theorem c01_consistency_mcwf {H : Matrix n n ℂ} {Ls : List (Proc (Matrix n n ℂ))} {A : ℝ → Matrix n n ℂ}
+    (hA : IsNoJumpFamily H Ls A) (hH : Hᴴ = H) (ρ : Matrix n n ℂ) (hρ : trace ρ = 1)
+    (hκ : trace (genK Ls * ρ) ≠ 0) :
+    avgStateMcwf Ls A ρ 0 = ρ ∧ HasDerivAt (avgStateMcwf Ls A ρ) (lind H Ls ρ) 0 :=
+  hasDerivAt_avgStateMcwf hA hH ρ hρ hκ
+
+/-- **C01.7g `c01_consistency_mixed`** the density-matrix form: the same statement for every (mixed) state `ρ` of trace
+    one with non-zero jump rate, `E(t) = σ(t) + ((1−tr σ(t))/tr(Kσ(t)))·Σ_k γ_k L_kσ(t)L_k†`, `σ(t) = A(t)ρA(t)†`. -/
+theorem c01_consistency_mixed {H : Matrix n n ℂ} {Ls : List (Proc (Matrix n n ℂ))} {A : ℝ → Matrix n n ℂ}
+    (hA : IsNoJumpFamily H Ls A) (hH : Hᴴ = H) (ρ : Matrix n n ℂ) (hρ : trace ρ = 1)
+    (hκ : trace (genK Ls * ρ) ≠ 0) :
+    avgState Ls A ρ 0 = ρ ∧ HasDerivAt (avgState Ls A ρ) (lind H Ls ρ) 0 :=
+  hasDerivAt_avgState hA hH ρ hρ hκ
+
+/-- **C01.7h `c01_consistency_degenerate`** (`⟨ψ|K|ψ⟩ = 0`: every process with `γ_k > 0` annihilates `ψ`) Then the jump term
+    of the Lindbladian vanishes on `ρ`, all lottery weights `t·γ_k‖L_kψ‖²` are zero at `t = 0` (the code's jump
+    probability `1 − n(t)` is `o(t)`), every entry of the jump part of the average is bounded by the jump probability
+    (fourth conjunct, all `φ`), and the derivative of the one-step average at `0` is still `𝓛ρ = −i[H,ρ] − ½{K,ρ}`. -/
+theorem c01_consistency_degenerate {H : Matrix n n ℂ} {Ls : List (Proc (Matrix n n ℂ))} {A : ℝ → Matrix n n ℂ}
+    (hA : IsNoJumpFamily H Ls A) (hH : Hᴴ = H) (hγ : ∀ p ∈ Ls, 0 ≤ p.gamma) (ψ : n → ℂ)
+    (hψ : star ψ ⬝ᵥ ψ = 1) (hκ : star ψ ⬝ᵥ (genK Ls *ᵥ ψ) = 0) :
+    jumpSum Ls (vecMulVec ψ (star ψ)) = 0
+    ∧ pureAverage Ls (A 0 *ᵥ ψ) = vecMulVec ψ (star ψ)
+    ∧ HasDerivAt (fun t => pureAverage Ls (A t *ᵥ ψ)) (lind H Ls (vecMulVec ψ (star ψ))) 0
+    ∧ ∀ (φ : n → ℂ) (i j : n), ‖(pureAverage Ls φ - vecMulVec φ (star φ)) i j‖ ≤ ‖1 - star φ ⬝ᵥ φ‖ := by
+  obtain ⟨h1, h2, h3⟩ := hasDerivAt_avgState_degenerate hA hH hγ ψ hψ hκ
+  exact ⟨h1, h2, h3, fun φ i j => jump_term_entry_le Ls hγ φ i j⟩
+
+/-- **C01.7i `c01_first_order_error`** (one-step error against the exact solution) `lindFlow H Ls t = exp(t𝓛)` (Mathlib's
+    exponential of the bounded operator `𝓛`) solves the master equation `d/dt ρ(t) = 𝓛ρ(t)`, `ρ(0) = ρ` (first two
+    conjuncts), and the difference between the one-step trajectory average and the exact solution vanishes at `0`
+    together with its derivative — every entry of `E(t) − exp(t𝓛)ρ` is `o(t)`: the tensor-jump step is a first-order
+    consistent one-step method for the Lindblad equation. -/
+theorem c01_first_order_error {H : Matrix n n ℂ} {Ls : List (Proc (Matrix n n ℂ))} {A : ℝ → Matrix n n ℂ}
+    (hA : IsNoJumpFamily H Ls A) (hH : Hᴴ = H) (hγ : ∀ p ∈ Ls, 0 ≤ p.gamma) (ψ : n → ℂ)
+    (hψ : star ψ ⬝ᵥ ψ = 1) :
+    lindFlow H Ls 0 (vecMulVec ψ (star ψ)) = vecMulVec ψ (star ψ)
+    ∧ (∀ t, HasDerivAt (fun s => lindFlow H Ls s (vecMulVec ψ (star ψ)))
+        (lind H Ls (lindFlow H Ls t (vecMulVec ψ (star ψ)))) t)
+    ∧ HasDerivAt (fun t => pureAverage Ls (A t *ᵥ ψ) - lindFlow H Ls t (vecMulVec ψ (star ψ))) 0 0
+    ∧ ∀ i j, (fun t => (pureAverage Ls (A t *ᵥ ψ) - lindFlow H Ls t (vecMulVec ψ (star ψ))) i j)
+        =o[nhds 0] fun t : ℝ => t := by
+  obtain ⟨h0, hd⟩ := hasDerivAt_pureAverage hA hH hγ ψ hψ
+  have hf := lindFlow_solves H Ls (vecMulVec ψ (star ψ)) 0
+  rw [lindFlow_zero] at hf
+  have hsub := hasDerivAt_subM hd hf
+  rw [sub_self] at hsub
+  refine ⟨lindFlow_zero H Ls _, fun t => lindFlow_solves H Ls _ t, hsub, fun i j => ?_⟩
+  have he := hasDerivAt_entry hsub i j
+  rw [hasDerivAt_iff_isLittleO_nhds_zero] at he
+  simpa [h0, lindFlow_zero] using he
+
+omit [DecidableEq n] in
+/-- **C01.7j `c01_average_is_lottery_expectation`** (link to C01.3) The matrix `pureAverage Ls φ` differentiated above is
+    the closed form of `c01_lottery_expectation` with the time step inside the weights (`W = Σ_k t·γ_k‖L_kφ‖²`, jump term
+    `Σ_k t·γ_k (L_kφ)(L_kφ)†`): the step cancels for `t ≠ 0`, and for every observable `O`
+    `tr(O·E) = a₀ + ((1−n)/W)·Σ_k t·γ_k·a_k` with `a₀ = ⟨φ|O|φ⟩`, `a_k = ⟨L_kφ|O|L_kφ⟩`, `n = ‖φ‖²`. -/
+theorem c01_average_is_lottery_expectation (Ls : List (Proc (Matrix n n ℂ))) (t : ℝ) (φ : n → ℂ) (O : Matrix n n ℂ) :
+    (t ≠ 0 → stepAverage Ls t φ = pureAverage Ls φ)
+    ∧ trace (O * stepAverage Ls t φ)
+      = star φ ⬝ᵥ (O *ᵥ φ)
+        + (1 - star φ ⬝ᵥ φ) / (Ls.map fun p => (t : ℂ) * rateC p.gamma * (star (p.op *ᵥ φ) ⬝ᵥ (p.op *ᵥ φ))).sum
+          * (Ls.map fun p => (t : ℂ) * rateC p.gamma * (star (p.op *ᵥ φ) ⬝ᵥ (O *ᵥ (p.op *ᵥ φ)))).sum :=
+  ⟨fun ht => stepAverage_eq Ls t ht φ, trace_mul_stepAverage Ls t φ O⟩
+
+/-! ### non-vacuity: one qubit, `H = X`, processes `lowering` (γ = 1/10) and `pauli_x` (γ = 1/5), `ψ = |1⟩` -/
+
+def cxX : Matrix (Fin 2) (Fin 2) ℂ := !![0, 1; 1, 0]
+def cxLow : Matrix (Fin 2) (Fin 2) ℂ := !![0, 1; 0, 0]
+def cxProcs : List (Proc (Matrix (Fin 2) (Fin 2) ℂ)) := [⟨1 / 10, cxLow⟩, ⟨1 / 5, cxX⟩]
+def cxPsi : Fin 2 → ℂ := ![0, 1]
+
+/-- the hypotheses of `c01_consistency`, `ratio_deriv`, `c01_first_order_error` are met -/
+example : cxXᴴ = cxX ∧ (∀ p ∈ cxProcs, 0 ≤ p.gamma) ∧ star cxPsi ⬝ᵥ cxPsi = 1
+    ∧ star cxPsi ⬝ᵥ (genK cxProcs *ᵥ cxPsi) ≠ 0 := by
+  refine ⟨?_, ?_, ?_, ?_⟩
+  · ext i j; fin_cases i <;> fin_cases j <;> simp [cxX, conjTranspose_apply]
+  · intro p hp
+    simp only [cxProcs, List.mem_cons, List.not_mem_nil, or_false] at hp
+    rcases hp with rfl | rfl <;> norm_num
+  · simp [cxPsi, dotProduct, Fin.sum_univ_two]
+  · have : star cxPsi ⬝ᵥ (genK cxProcs *ᵥ cxPsi) = (3 / 10 : ℂ) := by
+      simp [genK, gammaSum, cxProcs, cxPsi, cxLow, cxX, rateC, dotProduct, Matrix.mulVec, Fin.sum_univ_two,
+        Matrix.mul_apply, conjTranspose_apply, Matrix.add_apply, Matrix.smul_apply]
+      norm_num
+    rw [this]; norm_num
+
+/-- the hypotheses of `c01_consistency_degenerate` are met: `lowering` alone on `ψ = |0⟩` (nothing to lose) -/
+example : star (![1, 0] : Fin 2 → ℂ) ⬝ᵥ ![1, 0] = 1
+    ∧ star (![1, 0] : Fin 2 → ℂ) ⬝ᵥ (genK [(⟨1 / 10, cxLow⟩ : Proc (Matrix (Fin 2) (Fin 2) ℂ))] *ᵥ ![1, 0]) = 0 := by
+  constructor
+  · simp [dotProduct, Fin.sum_univ_two]
+  · simp [genK, gammaSum, cxLow, rateC, dotProduct, Matrix.mulVec, Fin.sum_univ_two, Matrix.mul_apply,
+      conjTranspose_apply, Matrix.smul_apply]
+
+/-- **C01.8a `c01_smooth_families`** the four no-jump propagators of `c01_noJump_families` are twice continuously
+    differentiable in `t` (products of matrix exponentials; `SmoothFamily A := ContDiff ℝ 2 A`). -/
+theorem c01_smooth_families (H : Matrix n n ℂ) (Ls : List (Proc (Matrix n n ℂ))) :
+    SmoothFamily (fun t => dissStep Ls t * unitaryStep H t)
+    ∧ SmoothFamily (fun t => dissStepK Ls t * unitaryStep H t)
+    ∧ SmoothFamily (fun t => dissStep Ls (t / 2) * unitaryStep H t * dissStep Ls (t / 2))
+    ∧ SmoothFamily (fun t : ℝ => exp (t • ((-Complex.I) • (H - ((1 / 2 : ℂ) * Complex.I) • genK Ls)))) :=
+  ⟨smooth_order1 H Ls, smooth_order1K H Ls, smooth_order2 H Ls, smooth_mcwf H Ls⟩
+
+/-- **C01.8 `c01_local_error_quadratic`** ("an error that shrinks quadratically with the time step", one step) For Hermitian
+    `H`, strengths `γ_k ≥ 0`, any process list in any order, every unit vector `ψ` (zero or non-zero jump rate) and every
+    twice continuously differentiable no-jump family `A` — order 1, order 2 and MCWF propagators included
+    (`c01_noJump_families`, `c01_smooth_families`): there are `C` and `δ > 0` such that for all `0 ≤ t ≤ δ` every entry of
+        `E(t) − exp(t𝓛)ρ`
+    (one-step trajectory average minus the exact Lindblad solution) is bounded by `C·t²`. -/
+theorem c01_local_error_quadratic {H : Matrix n n ℂ} {Ls : List (Proc (Matrix n n ℂ))} {A : ℝ → Matrix n n ℂ}
+    (hA : IsNoJumpFamily H Ls A) (hS : SmoothFamily A) (hH : Hᴴ = H) (hγ : ∀ p ∈ Ls, 0 ≤ p.gamma) (ψ : n → ℂ)
+    (hψ : star ψ ⬝ᵥ ψ = 1) :
+    ∃ C δ : ℝ, 0 < δ ∧ ∀ t, 0 ≤ t → t ≤ δ → ∀ i j,
+      ‖(pureAverage Ls (A t *ᵥ ψ) - lindFlow H Ls t (vecMulVec ψ (star ψ))) i j‖ ≤ C * t ^ 2 :=
+  quadratic_error_pure hA hS hH hγ ψ hψ
+
+/-- **C01.8 for the solvers, spelled out**: quadratic one-step error of `analog_tjm_1` (`U`, `D(t)`, lottery) and of the
+    Strang step `D(t/2)·U(t)·D(t/2)` with one lottery. -/
+theorem c01_local_error_quadratic_tjm (H : Matrix n n ℂ) (Ls : List (Proc (Matrix n n ℂ))) (hH : Hᴴ = H)
+    (hγ : ∀ p ∈ Ls, 0 ≤ p.gamma) (ψ : n → ℂ) (hψ : star ψ ⬝ᵥ ψ = 1) :
+    (∃ C δ : ℝ, 0 < δ ∧ ∀ t, 0 ≤ t → t ≤ δ → ∀ i j,
+      ‖(pureAverage Ls ((dissStep Ls t * unitaryStep H t) *ᵥ ψ) - lindFlow H Ls t (vecMulVec ψ (star ψ))) i j‖
+        ≤ C * t ^ 2)
+    ∧ ∃ C δ : ℝ, 0 < δ ∧ ∀ t, 0 ≤ t → t ≤ δ → ∀ i j,
+      ‖(pureAverage Ls ((dissStep Ls (t / 2) * unitaryStep H t * dissStep Ls (t / 2)) *ᵥ ψ)
+          - lindFlow H Ls t (vecMulVec ψ (star ψ))) i j‖ ≤ C * t ^ 2 :=
+  ⟨quadratic_error_pure (noJump_order1 H Ls) (smooth_order1 H Ls) hH hγ ψ hψ,
+   quadratic_error_pure (noJump_order2 H Ls) (smooth_order2 H Ls) hH hγ ψ hψ⟩
+
+/-- **C01.8b `c01_local_error_quadratic_mcwf`** the same for the MCWF average (weights from the pre-step state), any state of
+    trace one with non-zero jump rate; and **C01.8c** for the density-matrix form of the TJM average. -/
+theorem c01_local_error_quadratic_mcwf {H : Matrix n n ℂ} {Ls : List (Proc (Matrix n n ℂ))} {A : ℝ → Matrix n n ℂ}
+    (hA : IsNoJumpFamily H Ls A) (hS : SmoothFamily A) (hH : Hᴴ = H) (ρ : Matrix n n ℂ) (hρ : trace ρ = 1)
+    (hκ : trace (genK Ls * ρ) ≠ 0) :
+    (∃ C δ : ℝ, 0 < δ ∧ ∀ t, 0 ≤ t → t ≤ δ → ∀ i j,
+      ‖(avgStateMcwf Ls A ρ t - lindFlow H Ls t ρ) i j‖ ≤ C * t ^ 2)
+    ∧ ∃ C δ : ℝ, 0 < δ ∧ ∀ t, 0 ≤ t → t ≤ δ → ∀ i j,
+      ‖(avgState Ls A ρ t - lindFlow H Ls t ρ) i j‖ ≤ C * t ^ 2 :=
+  ⟨quadratic_error_mcwf hA hS hH ρ hρ hκ, quadratic_error_avgState hA hS hH ρ hρ hκ⟩
+
+end Yaqs.Consistency
